@@ -3,7 +3,7 @@
    Model: State/StateModel.v (core/state statedb.go, state_object.go, journal.go at content level;
    H = Keccak-256 is a parameter: nothing is assumed about it except where stated). *)
 From AQ Require Import Lib.Bytes State.StateSpec State.StateModel State.StateProofs State.StateRefute
-  State.StateUndoLemmas State.StateRevertProof State.StatePerm State.StateCopy State.StateRoot State.StateFinal State.StateAbs State.StateAbsProofs State.StateDb State.StateDbProofs.
+  State.StateUndoLemmas State.StateRevertProof State.StatePerm State.StateCopy State.StateRoot State.StateFinal State.StateAbs State.StateAbsProofs State.StateDb State.StateDbProofs State.StatePermCodes.
 From Coq Require Import Permutation.
 Import ListNotations.
 Local Open Scope N_scope.
@@ -313,6 +313,42 @@ Theorem C09_commit_perm_partial : forall (H : bytes -> bytes) (b : bool) (s : st
   rmap (fun p => (erase_codes (fst p), snd p)) (commit_with H o2 b s).
 Proof. exact commit_perm. Qed.
 Print Assumptions C09_commit_perm_partial.
+
+(* FULL (deepening round 6): the code store too, read as the map it stands for (bget = the node
+   database lookup db.ContractCode).  The list representing it depends on the iteration order, its
+   meaning does not: for two iteration orders of stateObjects both Commits panic, or both succeed
+   with the same root content, the same state in every other field, and code stores that answer
+   every lookup identically — hence every getter incl. GetCode / GetCodeSize reads the same
+   (C09_commit_perm_getters).  Premise codes_agree: two live objects never hold DIFFERENT code under
+   the SAME code hash; it follows from the way SetCode computes the hash when H is collision free
+   (C09_codes_agree_of_hash) and cannot be dropped for an arbitrary (colliding) parameter H. *)
+Theorem C09_commit_perm : forall (H : bytes -> bytes) (b : bool) (s : state) (o1 o2 : list N),
+  Permutation o1 o2 -> NoDup o1 -> sorted (st_live s) -> sorted (st_trie s) ->
+  (forall a a' o o' c c', aget a (st_live s) = Some o -> aget a' (st_live s) = Some o' ->
+     o_code o = Some c -> o_code o' = Some c' -> o_ch o = o_ch o' -> c = c') ->
+  match commit_with H o1 b s, commit_with H o2 b s with
+  | Ok (s1, r1), Ok (s2, r2) =>
+      r1 = r2 /\ erase_codes s1 = erase_codes s2 /\ (forall h, bget h (st_codes s1) = bget h (st_codes s2))
+  | Panic, Panic => True
+  | _, _ => False
+  end.
+Proof. exact commit_perm_full. Qed.
+Print Assumptions C09_commit_perm.
+
+Theorem C09_commit_perm_getters : forall (H : bytes -> bytes) (s1 s2 : state),
+  erase_codes s1 = erase_codes s2 -> (forall h, bget h (st_codes s1) = bget h (st_codes s2)) ->
+  (forall a, account_view H s1 a = account_view H s2 a) /\ (forall a k, get_state s1 a k = get_state s2 a k) /\
+  (forall a, get_code_size s1 a = get_code_size s2 a) /\ (forall a, get_code H s1 a = get_code H s2 a).
+Proof. exact getters_of_erase. Qed.
+Print Assumptions C09_commit_perm_getters.
+
+Theorem C09_codes_agree_of_hash : forall (H : bytes -> bytes) (s : state),
+  (forall x y, H x = H y -> x = y) ->
+  (forall a o c, aget a (st_live s) = Some o -> o_code o = Some c -> o_ch o = H c) ->
+  forall a a' o o' c c', aget a (st_live s) = Some o -> aget a' (st_live s) = Some o' ->
+     o_code o = Some c -> o_code o' = Some c' -> o_ch o = o_ch o' -> c = c'.
+Proof. exact codes_agree_of_hash. Qed.
+Print Assumptions C09_codes_agree_of_hash.
 
 Theorem C09_commit_root_perm : forall (H : bytes -> bytes) (b : bool) (s : state) (o1 o2 : list N),
   Permutation o1 o2 -> NoDup o1 -> sorted (st_live s) -> sorted (st_trie s) ->
